@@ -12,7 +12,9 @@
 //              t:<e,..> ([]string) | n:<int> (other type)
 //     world    "-" or uuid@ts,...            objects held by the backend whose id is the uuid's first 5 characters
 //     scripts  "-" or id=act|act;...         per backend, per call index; past the end: "pa.f"
-//              act: e<status> (error; 0 = no HTTP status) | p<k>.<ord>[+inj|^inj]
+//              act: e<status> (error; 0 = no HTTP status) | p<k>.<ord>[+inj|^inj] |
+//                   w (a backend that honours its context: waits until the request context is cancelled,
+//                      then returns ctx.Err(); only generated when another cluster fails by itself)
 //              k: "a" (all) or a number; ord: f | r | o<n> (rotate); inj: uuid@ts,... appended (+) or prepended (^)
 //
 // Result line:
@@ -181,7 +183,7 @@ func verifC20Match(uuid string, filters []arvados.Filter) bool {
 	return true
 }
 
-func (s *verifC20Stub) respond(opts arvados.ListOptions) (items []verifC20Obj, err error) {
+func (s *verifC20Stub) respond(ctx context.Context, opts arvados.ListOptions) (items []verifC20Obj, err error) {
 	s.mtx.Lock()
 	defer s.mtx.Unlock()
 	idx := len(s.log)
@@ -208,6 +210,15 @@ func (s *verifC20Stub) respond(opts arvados.ListOptions) (items []verifC20Obj, e
 		}
 		s.log = append(s.log, verifC20RenderReq(opts)+" => "+resp)
 	}()
+	if act == "w" {
+		select {
+		case <-ctx.Done():
+			return nil, ctx.Err()
+		case <-time.After(15 * time.Second):
+			// nobody cancelled: the schedule had no cause (generator error) or cancel() was lost
+			return nil, httpserver.ErrorWithStatus(errors.New("context never cancelled"), 599)
+		}
+	}
 	if strings.HasPrefix(act, "e") {
 		st, _ := strconv.Atoi(act[1:])
 		if st == 0 {
@@ -277,42 +288,42 @@ func (s *verifC20Stub) respond(opts arvados.ListOptions) (items []verifC20Obj, e
 func verifC20Time(ts int64) time.Time { return time.Unix(1500000000+ts, 0).UTC() }
 
 func (s *verifC20Stub) CollectionList(ctx context.Context, o arvados.ListOptions) (r arvados.CollectionList, err error) {
-	items, err := s.respond(o)
+	items, err := s.respond(ctx, o)
 	for _, it := range items {
 		r.Items = append(r.Items, arvados.Collection{UUID: it.uuid, ModifiedAt: verifC20Time(it.ts)})
 	}
 	return
 }
 func (s *verifC20Stub) ContainerList(ctx context.Context, o arvados.ListOptions) (r arvados.ContainerList, err error) {
-	items, err := s.respond(o)
+	items, err := s.respond(ctx, o)
 	for _, it := range items {
 		r.Items = append(r.Items, arvados.Container{UUID: it.uuid, ModifiedAt: verifC20Time(it.ts)})
 	}
 	return
 }
 func (s *verifC20Stub) ContainerRequestList(ctx context.Context, o arvados.ListOptions) (r arvados.ContainerRequestList, err error) {
-	items, err := s.respond(o)
+	items, err := s.respond(ctx, o)
 	for _, it := range items {
 		r.Items = append(r.Items, arvados.ContainerRequest{UUID: it.uuid, ModifiedAt: verifC20Time(it.ts)})
 	}
 	return
 }
 func (s *verifC20Stub) GroupList(ctx context.Context, o arvados.ListOptions) (r arvados.GroupList, err error) {
-	items, err := s.respond(o)
+	items, err := s.respond(ctx, o)
 	for _, it := range items {
 		r.Items = append(r.Items, arvados.Group{UUID: it.uuid, ModifiedAt: verifC20Time(it.ts)})
 	}
 	return
 }
 func (s *verifC20Stub) SpecimenList(ctx context.Context, o arvados.ListOptions) (r arvados.SpecimenList, err error) {
-	items, err := s.respond(o)
+	items, err := s.respond(ctx, o)
 	for _, it := range items {
 		r.Items = append(r.Items, arvados.Specimen{UUID: it.uuid, ModifiedAt: verifC20Time(it.ts)})
 	}
 	return
 }
 func (s *verifC20Stub) UserList(ctx context.Context, o arvados.ListOptions) (r arvados.UserList, err error) {
-	items, err := s.respond(o)
+	items, err := s.respond(ctx, o)
 	for _, it := range items {
 		r.Items = append(r.Items, arvados.User{UUID: it.uuid, ModifiedAt: verifC20Time(it.ts)})
 	}
